@@ -155,6 +155,7 @@ bool World::app_action_enabled() const {
 void World::enabled(std::vector<Event>& ev) {
     std::vector<Event> defaults, late, variants;
     uint32_t fam = sc.fam; bool bytelvl = fam & F_BYTE;
+    if (script_pos < sc.faults_from_pos) fam = 0;   // the scenario wants an undisturbed prologue (e.g. requests that must meet a known CONNACK)
     auto add = [](std::vector<Event>& v, Event::K k, int s, int a = 0, int e = 0) { Event x; x.k = k; x.stream = s; x.a = a; x.e = e; v.push_back(x); };
     for (auto& st : net->streams) {
         int s = st->id;
@@ -389,7 +390,7 @@ void World::take_stop_snapshot(const std::string& what) {
 }
 
 void World::epilogue() {
-    in_epilogue = true;
+    in_epilogue = true; t_epilogue = now();
     if (capped && cap_reason.rfind("REPLAY", 0) == 0) return;
     if (!sc.epilogue_cancel || !client || !client->alive()) { drain_checked = false; }
     else { tr("epilogue: cancel()"); client->cancel(); epoch++; net->stop_marker = true; }
